@@ -45,4 +45,8 @@ def encOptStr : Option Str → String
   | none => "none"
   | some s => "some:" ++ encField s
 
+def sdrop (n : Nat) (s : String) : String := String.ofList (s.toList.drop n)
+def sdropRight (n : Nat) (s : String) : String := String.ofList (s.toList.dropLast.take (s.length - n))
+def sstarts (s pre : String) : Bool := pre.toList.isPrefixOf s.toList
+
 end GoRes.Wire
